@@ -75,6 +75,22 @@ def generate():
             tree = sx.paths(run)
             out.append(f'/-- `{fname}({jname!r}, [L0, L1], [R0, R1])` (source sha256 {dgc}…): `none` = `InvalidWorkspaceOperation` -/')
             out.append(f'def join_{tag}_{jlean} (nl0 nl1 nr0 nr1 : String) (bl0 bl1 br0 br1 : B) : Option (List (String × B)) :=\n{lean_tree(merge(tree))}\n')
+    # ---- `_join_measurements`: one measurement on each side, each with one parameter configuration; names, POIs, parameter names and
+    # parameter bodies symbolic
+    out.append('end\n\nsection\nvariable {P : Type} [DecidableEq P]\n')
+    dgm = hashlib.sha256((inspect.getsource(wsmod._join_measurements) + inspect.getsource(wsmod._join_parameter_configs)).encode()).hexdigest()[:16]
+    for jname, jlean in JOINS:
+        def run():
+            mk = lambda side: [{'name': Atom('name', f'm{side}'), 'config': {'poi': Atom('poi', f'poi{side}'),
+                                                                           'parameters': [{'name': Atom('pname', f'p{side}'), 'body': Atom('pbody', f'c{side}')}]}}]
+            try:
+                res = wsmod._join_measurements(jname, mk('l'), mk('r'))
+            except pyhf.exceptions.InvalidWorkspaceOperation:
+                return 'none'
+            return 'some [' + ', '.join('(' + m['name'].name + ', ' + m['config']['poi'].name + ', [' + ', '.join(f'({q["name"].name}, {q["body"].name})' for q in m['config']['parameters']) + '])' for m in res) + ']'
+        tree = sx.paths(run)
+        out.append(f'/-- `_join_measurements({jname!r}, [Ml], [Mr])` (source sha256 {dgm}…); measurement = (name, POI, parameter configurations); `none` = `InvalidWorkspaceOperation` -/')
+        out.append(f'def join_meas_{jlean} (ml mr poil poir pl pr : String) (cl cr : P) : Option (List (String × String × List (String × P))) :=\n{lean_tree(merge(tree))}\n')
     out.append('end\nend Pyhf.Gen\n')
     return '\n'.join(out)
 
